@@ -253,7 +253,7 @@ func main() {
 	// fixed order, so the output is deterministic for a given seed)
 	nGen := 6
 	if r.Thorough {
-		nGen = 60
+		nGen = 40
 	}
 	genRands := make([]*hlib.Rand, nGen)
 	for i := range genRands {
@@ -301,7 +301,7 @@ func main() {
 	modCfgs := []cfg{base}
 	wholeCfgs := []cfg{ship}
 	if r.Thorough {
-		modCfgs = append(modCfgs, cfg{"gcc", "-O2"}, cfg{"gcc", "-O3"})
+		modCfgs = append(modCfgs, cfg{"gcc", "-O2"})
 		wholeCfgs = append(wholeCfgs, cfg{"gcc", "-O0"}, cfg{"gcc", "-O3"})
 		if _, err := exec.LookPath("clang"); err == nil {
 			modCfgs = append(modCfgs, cfg{"clang", "-O2"}, cfg{"clang", "-O0"})
